@@ -389,6 +389,15 @@ func (fc *FnCtx) trIndex(st *State, x *ast.IndexExpr) Val {
 	case SMap:
 		k := fc.tr(st, x.Index)
 		return fc.mapRead(st, base, k, fc.typeOf(x))
+	case SOL:
+		i := fc.tr(st, x.Index)
+		if fc.safetyOn() {
+			ord := fc.siteOrdinal("index", x)
+			fc.oblige(st, fmt.Sprintf("index#%d", ord), "index", fc.contract.safetyTags(),
+				"(and (<= 0 "+i.T+") (< "+i.T+" "+base.T+"))", "index in range: "+exprString(x), x)
+		}
+		et := fc.typeOf(x)
+		return fc.freshVal(st, "elem", sortOf(et), et)
 	case SLL:
 		i := fc.tr(st, x.Index)
 		if fc.safetyOn() {
@@ -417,8 +426,12 @@ func mapSorts(gt types.Type) (Sort, Sort, types.Type, bool) {
 		return 0, 0, nil, false
 	}
 	ks, vs := sortOf(m.Key()), sortOf(m.Elem())
-	if (ks != SInt && ks != SStr) || (vs != SInt && vs != SBool && vs != SStr) {
+	if ks != SInt && ks != SStr {
 		return ks, vs, m.Elem(), false
+	}
+	if vs != SInt && vs != SBool && vs != SStr {
+		// values are not modelled: membership only (the value array holds dummies)
+		return ks, SInt, m.Elem(), true
 	}
 	return ks, vs, m.Elem(), true
 }
@@ -458,6 +471,10 @@ func (fc *FnCtx) mapRead(st *State, m Val, k Val, resT types.Type) Val {
 	if !ok {
 		return fc.freshVal(st, "mapread", sortOf(resT), resT)
 	}
+	if rs := sortOf(et); rs != SInt && rs != SBool && rs != SStr {
+		_ = has
+		return fc.freshVal(st, "mapval", rs, et)
+	}
 	zero := map[Sort]string{SInt: "0", SBool: "false", SStr: "emptystr"}[vs]
 	t := "(ite (select " + has + " " + k.T + ") (select " + val + " " + k.T + ") " + zero + ")"
 	if vs == SStr {
@@ -479,6 +496,9 @@ func (fc *FnCtx) mapWrite(st *State, m Val, k, v Val) {
 	has, val, ok := fc.mapArrays(st, m)
 	if !ok {
 		return
+	}
+	if v.S != SInt && v.S != SBool && v.S != SStr {
+		v = Val{T: "0", S: SInt}
 	}
 	ks, vs, _, _ := mapSorts(m.GT)
 	st.env[m.Rec+".has"] = Val{T: "(store " + has + " " + k.T + " true)", S: SOpaque, Raw: "(Array " + ks.smt() + " Bool)"}
@@ -502,6 +522,8 @@ func (fc *FnCtx) trSlice(st *State, x *ast.SliceExpr) Val {
 		lenT = "(slen " + base.T + ")"
 	case SSL:
 		lenT = "(sllen " + base.T + ")"
+	case SOL:
+		lenT = base.T
 	default:
 		fc.errorf("%s: unsupported slice base in %s", fc.posOf(x), exprString(x))
 		return fc.freshVal(st, "slice", sortOf(fc.typeOf(x)), fc.typeOf(x))
@@ -524,6 +546,9 @@ func (fc *FnCtx) trSlice(st *State, x *ast.SliceExpr) Val {
 	}
 	if base.S == SStr {
 		return Val{T: "(ssub " + base.T + " " + lo + " " + hi + ")", S: SStr, GT: base.GT}
+	}
+	if base.S == SOL {
+		return Val{T: "(- " + hi + " " + lo + ")", S: SOL, GT: base.GT}
 	}
 	return Val{T: "(slsub " + base.T + " " + lo + " " + hi + ")", S: SSL, GT: base.GT}
 }
